@@ -72,6 +72,7 @@ type viewTrack struct {
 	firstSnapBlank    bool // nothing had ever been registered under the range when its first snapshot was taken
 	dupWatch          bool // two watch streams on the range were open at the same time
 	deliveries        int
+	sendsBegun        int // event batches handed to the stream (deliveries counts the ones the receiver has taken)
 	lastDelivery      time.Time
 	toldRev           int64 // store revision up to which the registry has been told about the range (snapshot or delivered events)
 	valsOfKey         map[string]map[string]bool // every value ever delivered (event or snapshot) per key
@@ -547,7 +548,11 @@ func (w *watcher) pump() {
 			s.r.Probe("fault-delivery-delayed")
 			s.r.Sleep(d)
 		}
+		// from here until the receiver has taken it the batch is in flight (also a batch that
+		// replays revisions the registry has seen before, after a stream was re-created)
+		s.view(w.from).sendsBegun++
 		if !w.send(clientv3.WatchResponse{Header: *s.header(), Events: evs}) {
+			s.view(w.from).sendsBegun--
 			w.finish()
 			return
 		}
